@@ -3,9 +3,12 @@
      AlmPantr.alm_pantr       (ALM ∘ Pantr.pantr),
      AlmFista.alm_fista       (ALM ∘ FistaLoop.fista),
      AlmPanocDir.alm_panoc_dir (ALM ∘ PanocDir.panocD with the SHIPPED providers of Directions.v)
+     AlmZeroFprDir.alm_zerofpr_dir (ALM ∘ ZeroFprDir.zerofprD with the SHIPPED providers of Directions.v, both values of
+                               update_direction_from_prox_step)
    at binary64 against the real
      ALMSolver<ZeroFPRSolver<ScriptedDirection>>, ALMSolver<PANTRSolver<ScriptedTRDirection>>, ALMSolver<FISTASolver>,
-     ALMSolver<PANOCSolver<LBFGSDirection | StructuredLBFGSDirection | AndersonDirection | NoopDirection>>
+     ALMSolver<PANOCSolver<LBFGSDirection | StructuredLBFGSDirection | AndersonDirection | NoopDirection>>,
+     ALMSolver<ZeroFPRSolver<LBFGSDirection | StructuredLBFGSDirection | AndersonDirection | NoopDirection>>
    as run by harness/drv_solve.cpp (mode "alm" / "alm_nosigma").  Instantiation (that of Corr_ALMPANOC.v):
      - problem = with_defaults (vprob …) of the drv_solve family, provider mask = bits 1..7 of the driver's flags integer,
        wm_supplied = NaN vector (a supplied member poisons the caller's work buffers);
@@ -24,8 +27,8 @@
    (the exception leaves ALMSolver::operator()) must be `None` of the composed model, in the same inner solve, after the same
    records of the earlier inner solves (chk_exception). *)
 From Coq Require Import Floats List ZArith Bool Arith.
-From Alpaqa Require Import Num NumF Vec Prox SolverStatus SolverKernels AugLag Lbfgs LMQR Panoc ZeroFpr Pantr FistaLoop Directions PanocDir
-     Alm AlmCompose AlmPanoc AlmZeroFpr AlmPantr AlmFista AlmPanocDir
+From Alpaqa Require Import Num NumF Vec Prox SolverStatus SolverKernels AugLag Lbfgs LMQR Panoc ZeroFpr Pantr FistaLoop Directions PanocDir ZeroFprDir
+     Alm AlmCompose AlmPanoc AlmZeroFpr AlmPantr AlmFista AlmPanocDir AlmZeroFprDir
      Corr_PANOC Corr_ZEROFPR Corr_PANTR Corr_FISTA Corr_PANOCDIR Corr_ALMPANOC.
 Import ListNotations.
 Local Open Scope float_scope.
@@ -35,7 +38,8 @@ Inductive stack :=
 | StkZfpr (prm : Panoc.params (T:=float)) (script : list nat) (initial : bool)      (* ZeroFPRSolver<ScriptedDirection> *)
 | StkPantr (prm : trparams (T:=float)) (script : list nat) (initial : bool)         (* PANTRSolver<ScriptedTRDirection> *)
 | StkFista (prm : fparams (T:=float))                                               (* FISTASolver *)
-| StkDir (prm : Panoc.params (T:=float)) (sel : dirsel) (provide_hess : bool).      (* PANOCSolver<shipped provider> *)
+| StkDir (prm : Panoc.params (T:=float)) (sel : dirsel) (provide_hess : bool)       (* PANOCSolver<shipped provider> *)
+| StkZDir (prm : Panoc.params (T:=float)) (from_prox : bool) (sel : dirsel) (provide_hess : bool).   (* ZeroFPRSolver<shipped provider> *)
 
 (* one callback record as reported by the driver under ALM *)
 Inductive anyrec := RX (r : xrec) | RY (r : yrec) | RF (r : frec).
@@ -69,6 +73,9 @@ Definition flog (need : bool) (r : fresult (T:=float)) : list anyrec :=
   match r with FDone o => map (fun r => RF (frec_of need r)) (fo_log o) | _ => [] end.
 Definition dlog {D} (r : resultD D) : list anyrec :=
   match r with DoneD _ o => map (fun r => RX (rec_of r)) (out_log (od_out _ o)) | _ => [] end.
+
+Definition zdlog {D} (r : zresultD D) : list anyrec :=
+  match r with ZDoneD _ o => map (fun r => RX (rec_of r)) (out_log (zo_out _ o)) | _ => [] end.
 
 Definition run_sk (cs : skcase) : option ssum :=
   match cs with
@@ -127,6 +134,31 @@ Definition run_sk (cs : skcase) : option ssum :=
               run (struct_dir n dpow LP clb cub l1 dlb dub
                               true ph ph true false     (* BoxConstrProblem: inactive indices, box D; VProblem: Hessian members iff provide_hess; no eval_grad_gi *)
                               (fun x y Σ => AlmPanoc.o_grad_psi Pb prov y Σ x)      (* problem.eval_grad_ψ: the inner solver's own problem view *)
+                              (vp_hess_L_prod n Q w d) (vp_hess_psi_prod n Q w A d Dlb Dub)
+                              (vp_g n A d) (fun _ _ => [])
+                              cbrt_eps64 hvf fd full use_scaled)
+                  struct_unsized (fun s => sd_hcalls s)
+          end
+      | StkZDir prm fp sel ph =>
+          (* as StkDir, the inner solver being ZeroFPRSolver: the provider is handed the PROX iterate (ZeroFprDir.zpassD) *)
+          let stopd := fun cn : counters => after se (evals_of m cn + off) || after sc (c_cb cn) in
+          let run {D} (ops : dirops float D) (d0 : D) (hc : D -> nat) :=
+            match alm_zerofpr_dir Pb prov wm clb cub l1 split D ops stopd (fun _ => false) (fun _ => false)
+                                  prm fp ap lsfuel fuel d0 ofuel nan Σ0 y0 x0 with
+            | None => None
+            | Some co =>
+                let cn := fst (co_w co) in
+                Some (mkSS (co_final co) (co_x co) (evals_of m cn + hc (snd (co_w co)) * hcost m sel + off + post) 0 (c_cb cn)
+                           (recs_of zdlog (co_logs co) (co_trace co)))
+            end in
+          match sel with
+          | SelNoop => run noop_dir tt (fun _ => 0%nat)
+          | SelLbfgs LP rescale => run (lbfgs_dir n dpow LP rescale) lbfgs_unsized (fun _ => 0%nat)
+          | SelAnderson mem mdf rescale => run (anderson_dir n mem mdf rescale) (anderson_unsized mem mdf) (fun _ => 0%nat)
+          | SelStruct LP hvf fd full use_scaled =>
+              run (struct_dir n dpow LP clb cub l1 dlb dub
+                              true ph ph true false
+                              (fun x y Σ => AlmPanoc.o_grad_psi Pb prov y Σ x)
                               (vp_hess_L_prod n Q w d) (vp_hess_psi_prod n Q w A d Dlb Dub)
                               (vp_g n A d) (fun _ _ => [])
                               cbrt_eps64 hvf fd full use_scaled)
